@@ -1,0 +1,84 @@
+// Copyright (c) 2021 Uber Technologies, Inc.
+//
+// Permission is hereby granted, free of charge, to any person obtaining a copy
+// of this software and associated documentation files (the "Software"), to deal
+// in the Software without restriction, including without limitation the rights
+// to use, copy, modify, merge, publish, distribute, sublicense, and/or sell
+// copies of the Software, and to permit persons to whom the Software is
+// furnished to do so, subject to the following conditions:
+//
+// The above copyright notice and this permission notice shall be included in
+// all copies or substantial portions of the Software.
+//
+// THE SOFTWARE IS PROVIDED "AS IS", WITHOUT WARRANTY OF ANY KIND, EXPRESS OR
+// IMPLIED, INCLUDING BUT NOT LIMITED TO THE WARRANTIES OF MERCHANTABILITY,
+// FITNESS FOR A PARTICULAR PURPOSE AND NONINFRINGEMENT. IN NO EVENT SHALL THE
+// AUTHORS OR COPYRIGHT HOLDERS BE LIABLE FOR ANY CLAIM, DAMAGES OR OTHER
+// LIABILITY, WHETHER IN AN ACTION OF CONTRACT, TORT OR OTHERWISE, ARISING FROM,
+// OUT OF OR IN CONNECTION WITH THE SOFTWARE OR THE USE OR OTHER DEALINGS IN
+// THE SOFTWARE.
+
+package engine
+
+import (
+	"go/ast"
+)
+
+// DetachEmptyComments takes the comment groups that hold no comments any
+// more out of the nodes that still point to them.
+//
+// When every comment of a group was deleted with the code it was in, the
+// group is removed from File.Comments, but the Doc or Comment field of a
+// node may still refer to it. The position of such a group is undefined:
+// asking for it (as astutil does when it adds or deletes an import next to
+// that node) indexes an empty list.
+func DetachEmptyComments(f *ast.File) {
+	empty := func(cg *ast.CommentGroup) bool {
+		return cg != nil && len(cg.List) == 0
+	}
+
+	if empty(f.Doc) {
+		f.Doc = nil
+	}
+	ast.Inspect(f, func(n ast.Node) bool {
+		switch n := n.(type) {
+		case *ast.Field:
+			if empty(n.Doc) {
+				n.Doc = nil
+			}
+			if empty(n.Comment) {
+				n.Comment = nil
+			}
+		case *ast.ImportSpec:
+			if empty(n.Doc) {
+				n.Doc = nil
+			}
+			if empty(n.Comment) {
+				n.Comment = nil
+			}
+		case *ast.ValueSpec:
+			if empty(n.Doc) {
+				n.Doc = nil
+			}
+			if empty(n.Comment) {
+				n.Comment = nil
+			}
+		case *ast.TypeSpec:
+			if empty(n.Doc) {
+				n.Doc = nil
+			}
+			if empty(n.Comment) {
+				n.Comment = nil
+			}
+		case *ast.GenDecl:
+			if empty(n.Doc) {
+				n.Doc = nil
+			}
+		case *ast.FuncDecl:
+			if empty(n.Doc) {
+				n.Doc = nil
+			}
+		}
+		return true
+	})
+}
